@@ -46,7 +46,9 @@ def directional_check(ctx, cost, x, grad, v, bucket, what, rtol=1e-6, atol=0.0):
     if grad.shape != np.asarray(x).shape:
         ctx.fail(bucket + ':shape', '%s: gradient shape %s, expected %s' % (what, grad.shape, np.asarray(x).shape))
     pred = float(np.real(U.inner(grad, v)))
-    xs = max(float(np.abs(x).max()), 1.0)
+    xa = np.abs(np.asarray(x))
+    xa = xa[np.isfinite(xa)]            # samples a mask excludes may hold NaN / inf
+    xs = max(float(xa.max()) if xa.size else 1.0, 1.0)
     best = float('inf')
     cands = []
     for h in (1e-4 * xs, 1e-6 * xs):
@@ -421,7 +423,18 @@ def strat_cost(tier):
     ax = U.axis_len({'quick': 10, 'thorough': 24}[tier], 2)
     return st.fixed_dictionaries({'shape': st.one_of(st.tuples(ax, ax).map(list), ax.map(lambda k: [k])),
                                   'fn': st.sampled_from(['mse', 'nll', 'bgi']), 'mask': st.sampled_from(['none', 'random', 'all']),
-                                  'yhat_scalar': st.booleans(), 'seed': U.seeds})
+                                  'yhat_scalar': st.booleans(), 'seed': U.seeds,
+                                  # bad pixels: samples the mask excludes hold NaN / inf in the data or in the model ("False where it should not" contribute)
+                                  'bad': st.sampled_from(['none', 'none', 'nan-in-data', 'inf-in-data', 'nan-in-model', 'inf-in-model'])})
+
+
+def _spoil(a, mask, how, which):
+    """put NaN / inf on the samples the mask excludes"""
+    if mask is None or mask.all() or not how.endswith(which) or not isinstance(a, np.ndarray):
+        return a
+    a = a.copy()
+    a[~mask] = np.nan if how.startswith('nan') else np.inf
+    return a
 
 
 def check_cost(case, ctx):
@@ -439,10 +452,16 @@ def check_cost(case, ctx):
         if mask.sum() < 3:
             mask.flat[:3] = True
     ctx.nt(mask is not None)
-    ctx.label(fn, 'mask:' + case['mask'], '%dD' % len(shape))
+    bad = case.get('bad', 'none')
+    if mask is None or mask.all():
+        bad = 'none'
+    ctx.label(fn, 'mask:' + case['mask'], '%dD' % len(shape), 'bad-pixels:' + bad)
     v = r.uniform(-1, 1, shape)
+    if bad.endswith('model'):
+        v = np.where(mask, v, 0.0)       # the direction of the derivative lives on the valid samples
     if fn == 'mse':
         M, D = r.uniform(-1, 1, shape), r.uniform(-1, 1, shape)
+        M, D = _spoil(M, mask, bad, 'model'), _spoil(D, mask, bad, 'data')
         c, g = ctx.call(C.mean_square_error, M, D, mask)
         f = lambda m: float(C.mean_square_error(m, D, mask)[0])   # noqa
         x = M
@@ -452,17 +471,21 @@ def check_cost(case, ctx):
     elif fn == 'nll':
         yy = r.uniform(0.05, 0.95, shape)
         yhat = float(r.uniform(0.1, 0.9)) if case['yhat_scalar'] else r.uniform(0.05, 0.95, shape)
+        yy, yhat = _spoil(yy, mask, bad, 'model'), _spoil(yhat, mask, bad, 'data')
         c, g = ctx.call(C.negative_loglikelihood, yy, yhat, mask)
         f = lambda m: float(C.negative_loglikelihood(m, yhat, mask)[0])   # noqa
         x = yy
     else:
         I = r.uniform(0.1, 2, shape)
         D = 1.7 * I + 0.3 + 0.2 * r.uniform(-1, 1, shape)
+        I, D = _spoil(I, mask, bad, 'model'), _spoil(D, mask, bad, 'data')
         c, g = ctx.call(C.bias_and_gain_invariant_error, I, D, mask)
         f = lambda m: float(C.bias_and_gain_invariant_error(m, D, mask)[0])   # noqa
         x = I
     if mask is not None and not mask.all():
-        ctx.require(np.all(np.asarray(g)[~mask] == 0), fn + ':mask', 'gradient is non-zero outside the mask')
+        ctx.require(np.all(np.asarray(g)[~mask] == 0), fn + ':mask', 'gradient is non-zero outside the mask (bad pixels: %s)' % bad)
+        ctx.require(bool(np.isfinite(c)) and bool(np.all(np.isfinite(np.asarray(g)[mask]))), fn + ':mask:non-finite',
+                    'cost / gradient not finite although only excluded samples hold NaN / inf (bad pixels: %s)' % bad)
     directional_check(ctx, f, x, g, v, {'mse': 'mean_square_error', 'nll': 'negative_loglikelihood', 'bgi': 'bias_and_gain_invariant_error'}[fn],
                       '%s shape %s mask=%s' % (fn, shape, case['mask']), atol=1e-9)   # inputs, costs and gradients are O(1) by construction
 
